@@ -200,9 +200,15 @@ Fixpoint fapp (a b : forest) : forest :=
   match a with FNil => b | FCons k d r => FCons k d (fapp r b) end.
 Definition dict_union (a b : data) : data := Node KDict (fapp (forest_of a) (forest_of b)).
 Definition lazy_eval (fn : data -> data) (x extra : data) : data := dict_union (fn x) extra.
-(* LazyCall._extra_batches: itertools.repeat({}) when `not self.extra` (follows all data batches),
-   otherwise split_generator(self.extra, batch) *)
+(* LazyCall._extra_batches (since /repo fix for array-free extras): the extra entries are split with the same batch
+   size and FOLLOW the data batches, however many there are - an extra without any array (empty, or only empty
+   containers) is repeated unchanged: data_split bounded by the number of data batches *)
 Definition lazy_batches (fn : data -> data) (mx b : nat) (x extra : data) : list data :=
+  let xs := data_split mx b x in
+  zipw dict_union (map fn xs) (data_split (length xs) b extra).
+(* between d64dc15 and that fix: itertools.repeat({}) when `not self.extra`, otherwise split_generator(self.extra, batch)
+   with its own MAX_ITER bound: a non-empty extra WITHOUT arrays stopped the iteration after MAX_ITER batches *)
+Definition lazy_batches_d64 (fn : data -> data) (mx b : nat) (x extra : data) : list data :=
   match forest_of extra with
   | FNil => map (fun p => dict_union (fn p) (Node KDict FNil)) (data_split mx b x)
   | FCons _ _ _ => zipw dict_union (map fn (data_split mx b x)) (data_split mx b extra)
